@@ -6,6 +6,7 @@
 use lay::VF;
 #[allow(unused_imports)]
 use substrate_fixed::traits::{FixedSigned, FixedUnsigned};
+use substrate_fixed::Wrapping;
 use vcore::out::Outs;
 use vcore::{step, Out};
 
@@ -92,6 +93,9 @@ where
             step!(st, outs, 3, "overflowing", fl(a.overflowing_add(b)));
             step!(st, outs, 4, "plain", v(a + b));
             ref_forms(st, 5, outs, a, b, 0);
+            step!(st, outs, 10, "Wrapping", v(F::w_bin(Wrapping(a), Wrapping(b), 0, 0).0));
+            step!(st, outs, 11, "iter:sum", v(F::f_sum(&[a, b], false)));
+            step!(st, outs, 12, "iter:sum&", v(F::f_sum(&[a, b], true)));
         }
         SUB => {
             step!(st, outs, 0, "checked", o(a.checked_sub(b)));
@@ -100,6 +104,7 @@ where
             step!(st, outs, 3, "overflowing", fl(a.overflowing_sub(b)));
             step!(st, outs, 4, "plain", v(a - b));
             ref_forms(st, 5, outs, a, b, 1);
+            step!(st, outs, 10, "Wrapping", v(F::w_bin(Wrapping(a), Wrapping(b), 1, 0).0));
         }
         MUL => {
             step!(st, outs, 0, "checked", o(a.checked_mul(b)));
@@ -108,6 +113,9 @@ where
             step!(st, outs, 3, "overflowing", fl(a.overflowing_mul(b)));
             step!(st, outs, 4, "plain", v(a * b));
             ref_forms(st, 5, outs, a, b, 2);
+            step!(st, outs, 10, "Wrapping", v(F::w_bin(Wrapping(a), Wrapping(b), 2, 0).0));
+            step!(st, outs, 11, "iter:product", v(F::f_product(&[a, b], false)));
+            step!(st, outs, 12, "iter:product&", v(F::f_product(&[a, b], true)));
         }
         DIV => {
             step!(st, outs, 0, "checked", o(a.checked_div(b)));
@@ -116,11 +124,13 @@ where
             step!(st, outs, 3, "overflowing", fl(a.overflowing_div(b)));
             step!(st, outs, 4, "plain", v(a / b));
             ref_forms(st, 5, outs, a, b, 3);
+            step!(st, outs, 10, "Wrapping", v(F::w_bin(Wrapping(a), Wrapping(b), 3, 0).0));
         }
         REM => {
             step!(st, outs, 0, "checked", o(a.checked_rem(b)));
             step!(st, outs, 1, "plain", v(a % b));
             ref_forms(st, 2, outs, a, b, 4);
+            step!(st, outs, 7, "Wrapping", v(F::w_bin(Wrapping(a), Wrapping(b), 4, 0).0));
         }
         DIV_EUCLID => {
             step!(st, outs, 0, "checked", o(a.checked_div_euclid(b)));
@@ -132,6 +142,7 @@ where
         REM_EUCLID => {
             step!(st, outs, 0, "checked", o(a.checked_rem_euclid(b)));
             step!(st, outs, 1, "plain", v(a.rem_euclid(b)));
+            step!(st, outs, 2, "Wrapping", v(Wrapping(a).rem_euclid(Wrapping(b)).0));
         }
         MUL_INT => {
             step!(st, outs, 0, "checked", o(a.checked_mul_int(n)));
@@ -140,6 +151,7 @@ where
             step!(st, outs, 3, "overflowing", fl(a.overflowing_mul_int(n)));
             step!(st, outs, 4, "plain", v(a * n));
             ref_forms_int(st, 5, outs, a, n, 2);
+            step!(st, outs, 10, "Wrapping", v(F::w_int(Wrapping(a), n, 2, 0).0));
         }
         DIV_INT => {
             step!(st, outs, 0, "checked", o(a.checked_div_int(n)));
@@ -147,6 +159,7 @@ where
             step!(st, outs, 2, "overflowing", fl(a.overflowing_div_int(n)));
             step!(st, outs, 3, "plain", v(a / n));
             ref_forms_int(st, 4, outs, a, n, 3);
+            step!(st, outs, 9, "Wrapping", v(F::w_int(Wrapping(a), n, 3, 0).0));
         }
         REM_INT => {
             step!(st, outs, 0, "checked", o(a.checked_rem_int(n)));
@@ -154,6 +167,7 @@ where
             step!(st, outs, 2, "overflowing", fl(a.overflowing_rem_int(n)));
             step!(st, outs, 3, "plain", v(a % n));
             ref_forms_int(st, 4, outs, a, n, 4);
+            step!(st, outs, 9, "Wrapping", v(F::w_int(Wrapping(a), n, 4, 0).0));
         }
         DIV_EUCLID_INT => {
             step!(st, outs, 0, "checked", o(a.checked_div_euclid_int(n)));
@@ -166,6 +180,7 @@ where
             step!(st, outs, 1, "wrapping", v(a.wrapping_rem_euclid_int(n)));
             step!(st, outs, 2, "overflowing", fl(a.overflowing_rem_euclid_int(n)));
             step!(st, outs, 3, "plain", v(a.rem_euclid_int(n)));
+            step!(st, outs, 4, "Wrapping", v(Wrapping(a).rem_euclid_int(n).0));
         }
         NEG => {
             step!(st, outs, 0, "checked", o(a.checked_neg()));
@@ -179,6 +194,7 @@ where
             step!(st, outs, 2, "wrapping", v(a.wrapping_ceil()));
             step!(st, outs, 3, "overflowing", fl(a.overflowing_ceil()));
             step!(st, outs, 4, "plain", v(a.ceil()));
+            step!(st, outs, 5, "Wrapping", v(Wrapping(a).ceil().0));
         }
         FLOOR => {
             step!(st, outs, 0, "checked", o(a.checked_floor()));
@@ -186,6 +202,7 @@ where
             step!(st, outs, 2, "wrapping", v(a.wrapping_floor()));
             step!(st, outs, 3, "overflowing", fl(a.overflowing_floor()));
             step!(st, outs, 4, "plain", v(a.floor()));
+            step!(st, outs, 5, "Wrapping", v(Wrapping(a).floor().0));
         }
         ROUND => {
             step!(st, outs, 0, "checked", o(a.checked_round()));
@@ -193,6 +210,7 @@ where
             step!(st, outs, 2, "wrapping", v(a.wrapping_round()));
             step!(st, outs, 3, "overflowing", fl(a.overflowing_round()));
             step!(st, outs, 4, "plain", v(a.round()));
+            step!(st, outs, 5, "Wrapping", v(Wrapping(a).round().0));
         }
         ROUND_TE => {
             step!(st, outs, 0, "checked", o(a.checked_round_ties_to_even()));
@@ -200,9 +218,11 @@ where
             step!(st, outs, 2, "wrapping", v(a.wrapping_round_ties_to_even()));
             step!(st, outs, 3, "overflowing", fl(a.overflowing_round_ties_to_even()));
             step!(st, outs, 4, "plain", v(a.round_ties_to_even()));
+            step!(st, outs, 5, "Wrapping", v(Wrapping(a).round_ties_to_even().0));
         }
         ROUND_TO_ZERO => {
             step!(st, outs, 0, "plain", v(a.round_to_zero()));
+            step!(st, outs, 1, "Wrapping", v(Wrapping(a).round_to_zero().0));
         }
         INT => {
             step!(st, outs, 0, "int", v(a.int()));
@@ -223,6 +243,7 @@ where
             run_common::<F>(st, op, ar, br, outs);
             step!(st, outs, 4, "plain", v(-a));
             step!(st, outs, 5, "ref&", v(F::ref_un(a, 0)));
+            step!(st, outs, 6, "Wrapping", v(F::w_un(Wrapping(a), 0, false).0));
         }
         ABS => {
             step!(st, outs, 0, "checked", o(a.checked_abs()));
@@ -230,6 +251,7 @@ where
             step!(st, outs, 2, "wrapping", v(a.wrapping_abs()));
             step!(st, outs, 3, "overflowing", fl(a.overflowing_abs()));
             step!(st, outs, 4, "plain", v(a.abs()));
+            step!(st, outs, 5, "Wrapping", v(Wrapping(a).abs().0));
         }
         _ => run_common::<F>(st, op, ar, br, outs),
     }
@@ -241,6 +263,10 @@ where
 {
     match op {
         ABS => {}
+        NEG => {
+            run_common::<F>(st, op, ar, br, outs);
+            step!(st, outs, 4, "Wrapping", v(F::w_un(Wrapping(F::from_raw(ar)), 0, false).0));
+        }
         _ => run_common::<F>(st, op, ar, br, outs),
     }
 }
@@ -251,7 +277,6 @@ where
 // wrapping operation applied to F directly ("d<i>", differential).
 
 use std::str::FromStr;
-use substrate_fixed::Wrapping;
 
 pub const W_NEG: u16 = 0;
 pub const W_NOT: u16 = 1;
